@@ -3,6 +3,7 @@ import contextlib
 import io
 import itertools
 import re
+import warnings
 
 import numpy as np
 from hypothesis import strategies as st
@@ -15,15 +16,31 @@ RULE = ("(a) skeleton_enum: every grid shape of the tier's range (quick "
         "cycle {V,W,F} x a covering set of (semicoarsening, linerelaxation, "
         "clevel) is run through the REAL emg3d.solve with the numerical "
         "kernels replaced by recorders; the recorded event sequence "
-        "(smoothing kernel + level shape + sweeps, restriction, "
+        "(smoothing kernels + level shape + sweeps, restriction, "
         "prolongation) must equal an independent textbook V/W/F reference "
-        "generator. (b) skeleton_random: Hypothesis over shapes <=40, "
-        "multi-digit patterns, smoothing counts, clevel, iterations. "
-        "(c) log: full numerics with verb=5 on generated small problems; the "
-        "parsed log (level, cycmax, level shape, phase, lr/sc per cycle), "
-        "the first-cycle QC figure and the header's coarsest grid/level must "
-        "equal the reference.  Non-trivial = at least two levels and a "
-        "cycle that is not a plain two-grid V; distinct by (shape, config).")
+        "generator (kernel order inside one smoothing step is free). "
+        "Values include the spelling False, clevel up to 100 and next to the "
+        "deepest level, verb -1..5; skeleton_lines adds 'plates' with two "
+        "deep directions of unequal depth. (b) skeleton_random: Hypothesis "
+        "over shapes <=40 and plates <=256, multi-digit patterns, smoothing "
+        "counts, clevel -1..10/100, up to 40 iterations on shallow "
+        "hierarchies, verb -1..5, plain=True, omitted arguments (documented "
+        "defaults), a provided zero efield (info dict only is returned), "
+        "Laplace-domain source, iso/HTI/VTI/triaxial model. For verb>=3 the "
+        "header's coarsest grid/level/cell count, for verb>=4 the QC figure "
+        "and the per-cycle lines (cycle number, lr, sc), for verb=5 the "
+        "smoothing lines (level, shape, phase) must equal the reference. "
+        "(c) skeleton_ssl: the same with multigrid as PRECONDITIONER "
+        "(sslsolver True/'bicgstab'/'cgs'/'gcrotmk'/omitted): every "
+        "top-level multigrid call must run exactly max(len sc, len lr) "
+        "cycles and the sc/lr patterns must continue across calls (global "
+        "cycle N uses pattern[(N-1) % len]); it_mg = calls x cycles. "
+        "(d) log: full numerics with verb=5 on generated small problems "
+        "(solver or preconditioner); the parsed log (level, cycmax, level "
+        "shape, phase, lr/sc per cycle), the first-cycle QC figure and the "
+        "header's coarsest grid/level must equal the reference.  "
+        "Non-trivial = at least two levels and a cycle that is not a plain "
+        "two-grid V; distinct by (shape, config).")
 ASSUMPTIONS = [
     "reference generator in this module (recursive textbook definition, "
     "single visit of the coarsest level) shares no code with emg3d",
@@ -31,7 +48,21 @@ ASSUMPTIONS = [
     "solver.prolongation and solver.residual only; solve, MGParameters, "
     "multigrid, smoothing dispatch, restriction's grid/model coarsening, "
     "_current_sc_dir/_current_lr_dir and _terminate run unmodified; the "
-    "recorder is validated against the real verb=5 log by sub-check (c)",
+    "recorder is validated against the real verb=5 log by sub-check (d)",
+    "the stub residual norm is 0.5+0.5/(1+n): strictly decreasing and "
+    "bounded away from tol, so neither CONVERGED, DIVERGED nor STAGNATED "
+    "can end a run early",
+    "preconditioner mode: solver.multigrid is wrapped passively (marks "
+    "top-level calls; sets the returned field to the right-hand side, i.e. "
+    "M = identity, so that scipy keeps iterating); krylov and scipy run "
+    "unmodified; the NUMBER of preconditioner calls is taken from the "
+    "recording, not predicted; nu_init=0 there (initial smoothing per call "
+    "is not documented); documented basis: 'the maximum iteration for "
+    "multigrid is defined by the maximum length of the linerelaxation and "
+    "semicoarsening-cycles'",
+    "plain=True / omitted arguments: expected settings follow the "
+    "documented defaults (True, True, 'F', -1, nu 0/2/1/2) and the "
+    "documented rule that plain replaces only values that are True",
 ]
 SHARDS = {'quick': 1, 'thorough': 16}
 
@@ -432,7 +463,10 @@ def case_skeleton(spec, rec):
     r.install()
     buf = io.StringIO()
     try:
-        with contextlib.redirect_stdout(buf):
+        with contextlib.redirect_stdout(buf), warnings.catch_warnings():
+            # scipy's solvers may divide by zero once the (stubbed) system
+            # breaks down; only the control flow is under test here
+            warnings.simplefilter('ignore', RuntimeWarning)
             out = emg3d.solve(model, sf, maxit=maxit, tol=1e-30, verb=verb,
                               return_info=True, log=-1, **args)
     finally:
@@ -526,7 +560,7 @@ def case_skeleton(spec, rec):
             "maxit=%s" % ('1-9' if maxit < 10 else '10-19' if maxit < 20
                           else '20+'),
             "maxdim=%s" % ('<=40' if max(shape) <= 40 else '>40'),
-            "deep_dirs=%d" % sum(halvings(n) >= 4 for n in shape),
+            "dirs_with_3+_levels=%d" % sum(halvings(n) >= 2 for n in shape),
             "sc_or_lr_False=%s" % (spec['sc'] is False or spec['lr'] is False))
     if ssl:
         rec.cls("ncalls=%s" % (ncalls if ncalls < 5 else '5-9' if ncalls < 10
@@ -572,7 +606,10 @@ def case_log(spec, rec):
     ssl = spec.get('ssl', False)
     if ssl and nus[0] != 0:
         raise HarnessError("preconditioner mode needs nu_init=0")
-    with contextlib.redirect_stdout(io.StringIO()):
+    with contextlib.redirect_stdout(io.StringIO()), warnings.catch_warnings():
+        if ssl:
+            # scipy's own break-down arithmetic (e.g. gcrotmk 1/0)
+            warnings.simplefilter('ignore', RuntimeWarning)
         _, info = emg3d.solve(
             model, sf, sslsolver=ssl, semicoarsening=spec['sc'],
             linerelaxation=spec['lr'], cycle=spec['cycle'],
@@ -630,7 +667,7 @@ CLEVELS = [-1, 0, 1, 2, 5]
 # the limits used for the deep (n,2,2) lines / plates
 CLEVELS_HIGH = [5, 3, 100, 4, 9, 7, 10]
 CLEVELS_DEEP = [-1, 0, 1, 2, 5, 3, 4, 7, 9, 100]
-ENUM_VERBS = [4, -1, -1, 2, -1, 5, -1, -1, 0, -1, 3, -1, -1, 1]
+ENUM_VERBS = [4, -1, -1, 2, -1, 5, -1, 4, 0, -1, 3, -1, -1, 1]
 
 
 def covering_configs(k, clevels=CLEVELS):
@@ -658,9 +695,9 @@ def enum_specs(shapes, full=False, deep=False):
             cfgs = covering_configs(k, CLEVELS_DEEP if deep else CLEVELS)
         lev = max(halvings(n) for n in shape)
         for j, (sc, lr, cl) in enumerate(cfgs):
-            if deep and (k+j) % 3 == 0:
+            if deep and (k+j) % 4 == 0:
                 # limit next to the deepest possible level of this shape
-                cl = max(0, lev - 1 + (k+j)//3 % 3)
+                cl = max(0, lev - 1 + (k+j)//4 % 3)
             elif cl == 5 and not full:
                 cl = CLEVELS_HIGH[(k+j) % len(CLEVELS_HIGH)]
             # documented spelling `False` of "no semicoarsening / no line
@@ -672,10 +709,14 @@ def enum_specs(shapes, full=False, deep=False):
             for c, cycle in enumerate('VWF'):
                 npat = max(len(pattern(sc, [1, 2, 3])),
                            len(pattern(lr, [4, 5, 6])))
+                maxit = 2*npat if npat > 1 else 1 + (j % 2)
+                if deep and cycle == 'W' and (lev if cl < 0 else
+                                              min(lev, cl)) >= 6:
+                    maxit = min(maxit, 2)    # cost
                 yield {'shape': list(shape), 'cycle': cycle, 'sc': sc,
                        'lr': lr, 'clevel': cl,
                        'nus': [(k+j) % 2, 1 + (j % 2), 1, 1 + ((k+c) % 2)],
-                       'maxit': 2*npat if npat > 1 else 1 + (j % 2),
+                       'maxit': maxit,
                        'verb': ENUM_VERBS[(k+j+c) % 7 + 7*((k+j+c)//7 % 2)]}
 
 
@@ -726,6 +767,10 @@ def _finish(spec):
             spec['plain'] = False
         spec['nus'] = [0] + list(spec['nus'][1:])
         spec['maxit'] = 1 + (spec['maxit'] - 1) % 3
+        # solve's docstring announces an extra plain multigrid cycle when an
+        # initial efield is combined with an sslsolver; the code has none:
+        # no oracle on that combination
+        spec['efield'] = False
         if ssl == 'gcrotmk':
             spec['maxit'] = 1
     spec['omit'] = sorted(omit)
@@ -747,19 +792,22 @@ def random_spec(maxn, ssl=False):
                   st.sampled_from([2, 4, 8, 16, 32, 12, 24, 20, 40, 6, 10]))
     cube = st.tuples(n, n, n).map(list)
     # two deep directions of unequal depth, one shallow
-    plate = st.tuples(st.sampled_from(PLATE_N), st.integers(2, 40),
+    plate = st.tuples(st.sampled_from(PLATE_N),
+                      st.one_of(st.integers(2, 40), st.sampled_from(
+                          [8, 12, 16, 20, 24, 32, 40, 48, 64])),
                       st.sampled_from([2, 3, 4, 6]),
                       st.permutations([0, 1, 2])).map(
         lambda t: [t[:3][i] for i in t[3]])
     if ssl:
         shape = cube
-        sslv = st.sampled_from([True, True, 'bicgstab', 'cgs', 'cgs',
-                                'gcrotmk'])
+        sslv = st.sampled_from([True]*5 + ['bicgstab']*2 + ['cgs']*4 +
+                               ['gcrotmk'])
         omit = st.lists(st.sampled_from(ARGNAMES + ['sslsolver']*4),
                         unique=True, max_size=3)
         verb = st.sampled_from([-1, -1, 0, 1, 2, 3, 4, 4, 5])
     else:
-        shape = st.one_of(cube, cube, cube, cube, plate)
+        shape = st.tuples(st.integers(0, 11), cube, plate).map(
+            lambda t: t[2] if t[0] == 0 else t[1])
         sslv = st.just(False)
         omit = st.one_of(st.just([]), st.lists(
             st.sampled_from(ARGNAMES + ['sslsolver']), unique=True,
@@ -769,8 +817,8 @@ def random_spec(maxn, ssl=False):
         'shape': shape,
         'cycle': st.sampled_from(['V', 'W', 'F']),
         'sc': pat_sc, 'lr': pat_lr,
-        'clevel': st.one_of(st.sampled_from([-1, -1, 0, 1, 2, 3, 5]),
-                            st.integers(-1, 10), st.just(100)),
+        'clevel': st.one_of(st.sampled_from([-1, -1, 0, 1, 2, 3, 5, 100]),
+                            st.integers(-1, 10)),
         'nus': st.tuples(st.integers(0, 3), st.integers(0, 3),
                          st.integers(0, 3), st.integers(0, 3)).map(list),
         'maxit': st.one_of(st.integers(1, 9), st.integers(1, 9),
@@ -807,7 +855,8 @@ def log_spec():
                          st.integers(0, 2), st.integers(0, 3)).map(list),
         'maxit': st.integers(1, 7),
         'seed': gen.SEED,
-        'ssl': st.sampled_from([False, False, False, True, 'cgs', 'gcrotmk']),
+        'ssl': st.sampled_from([False, False, False, False, True, True, 'cgs',
+                                'gcrotmk']),
     }).map(fin)
 
 
@@ -815,8 +864,7 @@ SUBS = {'skeleton_enum': case_skeleton, 'skeleton_random': case_skeleton,
         'skeleton_lines': case_skeleton, 'skeleton_ssl': case_skeleton,
         'log': case_log}
 
-PLATES_QUICK = [(64, 32, 2), (128, 48, 3), (96, 2, 20), (2, 80, 24),
-                (6, 256, 40), (16, 4, 192), (48, 36, 4), (3, 24, 128)]
+PLATES_QUICK = [(64, 32, 2), (128, 48, 3), (96, 2, 20), (2, 80, 24)]
 
 
 def run(ctx):
@@ -834,12 +882,12 @@ def run(ctx):
                       case_skeleton, exhaustive=False)
         ctx.explore('skeleton_random', random_spec(40), case_skeleton,
                     ctx.n(1500, 1500))
-        ssl_shapes = [(2, 2, 2), (4, 4, 4), (8, 6, 4), (8, 8, 8), (5, 12, 16),
-                      (16, 2, 8), (3, 20, 6), (32, 4, 12)]
+        ssl_shapes = [(2, 2, 2), (8, 6, 4), (5, 12, 16), (16, 2, 8),
+                      (32, 4, 12)]
         ctx.enumerate('skeleton_ssl', list(ssl_enum_specs(ssl_shapes)),
                       case_skeleton, exhaustive=False)
         ctx.explore('skeleton_ssl', random_spec(24, ssl=True), case_skeleton,
-                    ctx.n(250, 1500))
+                    ctx.n(180, 1500))
         ctx.explore('log', log_spec(), case_log, ctx.n(60, 200))
     else:
         shapes = list(itertools.product(range(2, 41), repeat=3))
